@@ -15,6 +15,7 @@ import (
 	"sort"
 	"strings"
 	"sync"
+	"time"
 
 	"verif/emit"
 	"verif/ev"
@@ -198,7 +199,14 @@ func runC11(tier string) int {
 			var sets []optSet
 			switch {
 			case u.Pool == "witness":
-				sets = []optSet{t.Sets[0]}
+				// plain and the richest option set of the target
+				sets = []optSet{t.Sets[0], t.Sets[len(t.Sets)-1]}
+				if t.Name == "go" {
+					sets[1] = t.Sets[len(t.Sets)-2] // async+slim+suppress_deprecated_logging
+				}
+				if strings.HasPrefix(t.Name, "py") {
+					sets[1] = t.Sets[1] // package_prefix
+				}
 			case !run.Thorough():
 				sets = []optSet{t.Sets[(u.Idx+ti+int(run.Seed))%len(t.Sets)]}
 			default:
@@ -220,6 +228,7 @@ func runC11(tier string) int {
 	}
 	run.Set("compilation_keys(program,target,options)", len(c.comps))
 
+	tCompile := time.Now()
 	uch := make(chan *unit)
 	var wg sync.WaitGroup
 	for w := 0; w < 16; w++ {
@@ -237,10 +246,17 @@ func runC11(tier string) int {
 	close(uch)
 	wg.Wait()
 
+	run.Set("phase_s:compilations", time.Since(tCompile).Seconds())
+
 	// the negative side runs while the language oracles judge the emitted files
 	var owg sync.WaitGroup
 	owg.Add(1)
-	go func() { defer owg.Done(); c.oracles() }()
+	tOracles := time.Now()
+	go func() {
+		defer owg.Done()
+		c.oracles()
+		run.Set("phase_s:language_oracles(concurrent with the negative side)", time.Since(tOracles).Seconds())
+	}()
 
 	// ------------------------------------------------------------- negative side
 	nneg := 1500
@@ -259,7 +275,7 @@ func runC11(tier string) int {
 			negs = append(negs, &negCase{I: len(negs), Class: w.Meta.Class, Files: w.Files, Root: w.Meta.Root, Target: t.Name, Invalid: w.Meta.Invalid, Note: "witness " + w.Name})
 		}
 	}
-	st := &negStats{byClass: map[string]int{}, exits: map[string]map[string]int{}}
+	st := &negStats{byClass: map[string]int{}, exits: map[string]map[string]int{}, wall: map[string]float64{}}
 	nch := make(chan *negCase)
 	var nwg sync.WaitGroup
 	for w := 0; w < 16; w++ {
@@ -279,12 +295,17 @@ func runC11(tier string) int {
 	}
 	close(nch)
 	nwg.Wait()
+	run.Set("phase_s:negative_side", time.Since(tOracles).Seconds())
 	owg.Wait()
 
 	run.Set("negative_inputs", len(negs))
 	run.Set("negative_inputs_by_class", st.byClass)
 	run.Set("negative_exit_status_by_class", st.exits)
 	run.Set("negative_slowest_run_s", st.wallMax.Seconds())
+	for k, v := range st.wall {
+		st.wall[k] = float64(int(v*10)) / 10
+	}
+	run.Set("negative_run_time_s_by_class", st.wall)
 	run.Set("witness_programs_negative", nNegWitness)
 	run.Set("crash_signatures_seen", c.crashSeen)
 	run.Set("violation_signatures_seen(incl. known findings)", c.sigSeen)
